@@ -126,3 +126,69 @@ func H_C04_prune_runeDie() {
 		return []uint64{uint64(a), uint64(b)}
 	})
 }
+
+// H_C04_prune_repeat: a state machine (T.Repeat) whose actions are symbolic programs that may
+// draw, signal a non-fatal failure and skip: the recording of a whole test case, pruned of the
+// rejected (skipped/invalid) action attempts, must replay to the same verdict and the same draws.
+func H_C04_prune_repeat() {
+	nact := 1 + choose("nact", 2)
+	var progs [][]uint8
+	for i := 0; i < nact; i++ {
+		progs = append(progs, symOps("act"+itoa(i), 3, []uint8{opReturn, opDrawBool, opErrorf, opSkip}))
+	}
+	flags.steps = 2
+	run := func(s bitStream) (verdict int, msg string, draws []uint64) {
+		actions := map[string]func(*T){}
+		for i := range progs {
+			ops := progs[i]
+			actions[[]string{"A", "B"}[i]] = func(t *T) {
+				for _, op := range ops {
+					switch op {
+					case opReturn:
+						return
+					case opDrawBool:
+						draws = append(draws, b2u(Bool().Draw(t, "b")))
+					case opErrorf:
+						t.Errorf("non-fatal failure in an action")
+					case opSkip:
+						t.Skip("n/a")
+					}
+				}
+			}
+		}
+		err := checkOnce(newT(newVTB("SM"), s, false, nil), func(t *T) { t.Repeat(actions) })
+		switch {
+		case err == nil:
+			return 0, "", draws
+		case err.isInvalidData():
+			return 1, "", draws
+		}
+		return 2, err.Error(), draws
+	}
+	s1 := newBufBitStream(symWords("w", pruneL(9, 12)), true)
+	v1, m1, d1 := run(s1)
+	if v1 == 1 {
+		reach("invalid")
+		return // an invalid test case is not replayed
+	}
+	reach("valid")
+	if v1 == 2 {
+		reach("failed")
+	}
+	rec := s1.recordedBits
+	before := len(rec.data)
+	rec.prune()
+	if len(rec.data) < before {
+		reach("pruned-something")
+	}
+	s2 := newBufBitStream(append([]uint64(nil), rec.data...), true)
+	v2, m2, _ := run(s2)
+	vassert(v2 == v1 && m2 == m1, "C04: replaying the pruned recording of a state-machine test case gives a different verdict")
+	if v2 != v1 {
+		return
+	}
+	rec2 := s2.recordedBits
+	rec2.prune()
+	vassert(compareData(rec2.data, rec.data) == 0, "C04: re-recording the pruned replay of a state-machine test case gives a different bitstream")
+	_ = d1
+}
